@@ -7,7 +7,6 @@ Open Scope Z_scope.
 
 Section Mono.
 Variable p : program.
-Hypothesis Hng : forall n e, alookup p n = Some e -> no_group e = true.
 
 Notation mquery := (query_for p None).
 Notation mexecute := (execute p None).
@@ -21,8 +20,7 @@ Definition mmono_execute (f : nat) : Prop :=
   forall stk c n rc fr0 s m' s', mexecute f stk c n rc fr0 s = Ok (m', s') ->
     ~ In n stk -> ~ sverified s n -> MonoR stk s s'.
 Definition mmono_eval (f : nat) : Prop :=
-  forall stk me e fr s o fr' m' s', no_group e = true ->
-    meval f stk me e fr s = Ok (o, fr', m', s') -> MonoR stk s s'.
+  forall stk me e fr s o fr' m' s', meval f stk me e fr s = Ok (o, fr', m', s') -> MonoR stk s s'.
 Definition mmono_repair (f : nat) : Prop :=
   forall stk c n s m' s', mrepair f stk c n s = Ok (m', s') ->
     ~ In n stk -> ~ sverified s n -> MonoR stk s s'.
@@ -127,34 +125,44 @@ Proof.
         inversion Epr. auto. }
       destruct K as (K1 & K2 & K3). eapply MonoR_exec; eauto. }
     assert (He : mmono_eval (S f)).
-    { assert (Hbin : forall stk me a b op fr s o fr' m' s', no_group a = true -> no_group b = true ->
+    { assert (Hbin : forall stk me a b op fr s o fr' m' s',
                 mbin p f stk me a b op fr s = Ok (o, fr', m', s') -> MonoR stk s s').
-      { intros stk me a b op fr s o fr' m' s' Ga Gb H. unfold mbin in H.
+      { intros stk me a b op fr s o fr' m' s' H. unfold mbin in H.
         destruct (meval f stk me a fr s) as [[[[x fr1] m1] s1]| | |] eqn:E1; try discriminate.
-        apply IHe in E1; [|exact Ga]. destruct x.
+        apply IHe in E1. destruct x.
         - destruct (meval f stk me b fr1 s1) as [[[[y fr2] m2] s2]| | |] eqn:E2; try discriminate.
-          apply IHe in E2; [|exact Gb]. destruct y; inversion H; subst; eapply MonoR_trans; eauto.
+          apply IHe in E2. destruct y; inversion H; subst; eapply MonoR_trans; eauto.
         - inversion H. subst. exact E1. }
-      red. intros stk me e fr s o fr' m' s' Hg H.
-      assert (Eg : no_group_top e = true) by (destruct e; try reflexivity; discriminate).
-      rewrite (eval_S p f stk me e fr s Eg) in H. destruct e; cbn [no_group] in Hg.
-      + inversion H. subst. apply MonoR_refl.
-      + unfold mread in H.
+      assert (Hread : forall stk me n fr s o fr' m' s',
+                mread p f stk me n fr s = Ok (o, fr', m', s') -> MonoR stk s s').
+      { intros stk me n fr s o fr' m' s' H. unfold mread in H.
         destruct (mquery f stk me (Some fr) n s) as [[[[o1 fr1] m1] s1]| | |] eqn:E1; try discriminate.
-        apply IHq in E1. destruct o1 as [[z|]|]; inversion H; subst; exact E1.
-      + apply andb_true_iff in Hg. destruct Hg as [Ga Gb]. eapply Hbin; [exact Ga|exact Gb|exact H].
-      + apply andb_true_iff in Hg. destruct Hg as [Ga Gb]. eapply Hbin; [exact Ga|exact Gb|exact H].
+        apply IHq in E1. destruct o1 as [[z|]|]; inversion H; subst; exact E1. }
+      assert (Hgrp : forall stk me ns acc fr ms s o fr' m' s',
+                mgroup p f stk me ns acc fr ms s = Ok (o, fr', m', s') -> MonoR stk s s').
+      { intros stk me. induction ns as [|n r IHn]; intros acc fr ms s o fr' m' s' H; cbn [mgroup] in H.
+        - inversion H. subst. apply MonoR_refl.
+        - destruct (mread p f stk me n fr s) as [[[[x fr1] m1] s1]| | |] eqn:E1; try discriminate.
+          apply Hread in E1. destruct x.
+          + eapply MonoR_trans; [exact E1|]. eapply IHn; eauto.
+          + inversion H. subst. exact E1. }
+      red. intros stk me e fr s o fr' m' s' H.
+      rewrite (eval_S p f stk me e fr s) in H. destruct e.
+      + inversion H. subst. apply MonoR_refl.
+      + eapply Hread; eauto.
+      + eapply Hbin; eauto.
+      + eapply Hbin; eauto.
       + destruct (meval f stk me e fr s) as [[[[x fr1] m1] s1]| | |] eqn:E1; try discriminate.
-        apply IHe in E1; [|exact Hg]. destruct x; inversion H; subst; exact E1.
-      + apply andb_true_iff in Hg. destruct Hg as [Ga Gb]. eapply Hbin; [exact Ga|exact Gb|exact H].
-      + apply andb_true_iff in Hg. destruct Hg as [Hg G3]. apply andb_true_iff in Hg. destruct Hg as [G1 G2].
-        destruct (meval f stk me e1 fr s) as [[[[x fr1] m1] s1]| | |] eqn:E1; try discriminate.
-        apply IHe in E1; [|exact G1]. destruct x.
+        apply IHe in E1. destruct x; inversion H; subst; exact E1.
+      + eapply Hbin; eauto.
+      + destruct (meval f stk me e1 fr s) as [[[[x fr1] m1] s1]| | |] eqn:E1; try discriminate.
+        apply IHe in E1. destruct x.
         * match type of H with context [eval p None f ?a ?b ?c ?d ?e] =>
             destruct (eval p None f a b c d e) as [[[[y fr2] m2] s2]| | |] eqn:E2; try discriminate end.
-          apply IHe in E2; [|destruct (z =? 0); assumption]. inversion H. subst. eapply MonoR_trans; eauto.
+          apply IHe in E2. inversion H. subst. eapply MonoR_trans; eauto.
         * inversion H. subst. exact E1.
-      + discriminate. }
+      + destruct (mgroup p f stk me ns 0 (fr_set_unordered fr true) [] s) as [[[[x fr1] m1] s1]| | |] eqn:E1; try discriminate.
+        inversion H. subst. eapply Hgrp; eauto. }
     assert (Hr : mmono_repair (S f)).
     { red. intros stk c n s m' s' H Hn Hnv. rewrite repair_S in H.
       destruct (get_info s n) as [i|] eqn:Eg; [|discriminate]. cbv zeta in H.
